@@ -124,8 +124,14 @@ func StringValueFromCodeField(message proto.Message) (string, bool) {
 		field := reflect.Descriptor().Fields().ByName(protoreflect.Name("value"))
 		if field.Kind() == protoreflect.EnumKind {
 			enum := reflect.Get(field).Enum()
-			code := string(field.Enum().Values().ByNumber(enum).Name())
-			return strcase.ToKebab(code), true
+			value := field.Enum().Values().ByNumber(enum)
+			if value == nil {
+				return "", false
+			}
+			if code, ok := originalCode(value); ok {
+				return code, true
+			}
+			return strcase.ToKebab(string(value.Name())), true
 		}
 		if field.Kind() == protoreflect.StringKind {
 			return reflect.Get(field).String(), true
@@ -218,4 +224,15 @@ func init() {
 // MessageHeader.response.code is "CodeType").
 func isValueSetBound(descriptor protoreflect.MessageDescriptor) bool {
 	return proto.HasExtension(descriptor.Options(), apb.E_FhirValuesetUrl)
+}
+
+// originalCode returns the FHIR code of an enum value whose code cannot be
+// derived from the enum name (e.g. "<=", "0", or codes with capitals), which
+// google/fhir records in the fhir_original_code annotation.
+func originalCode(value protoreflect.EnumValueDescriptor) (string, bool) {
+	if !proto.HasExtension(value.Options(), apb.E_FhirOriginalCode) {
+		return "", false
+	}
+	code, ok := proto.GetExtension(value.Options(), apb.E_FhirOriginalCode).(string)
+	return code, ok && code != ""
 }
